@@ -1,11 +1,674 @@
 package schist
 
-// storageShadow is the generator's memory of storage-contract entities (filled in by storageOps).
-type storageShadow struct{}
+import (
+	"encoding/json"
+	"fmt"
+	"strings"
 
-func newStorageShadow() *storageShadow { return &storageShadow{} }
+	"0chain.net/chaincore/transaction"
+	"0chain.net/core/encryption"
+	"0chain.net/smartcontract/storagesc"
 
-func storageOps() []OpDef { return nil }
+	"verifh/mon"
+	"verifh/world"
+)
 
-// storageSetup registers the initial storage providers of a history.
-func storageSetup(h *Hist, mons []Monitor) {}
+// Workload generator for the storage smart contract. Identities (wallets, keys), counters and raw markers are kept in
+// the shadow; the *current* contract view of an entity (expiration, blobber list, last allocation root, stake, ...) is
+// read back from the state snapshot only to construct valid inputs. No oracle reads the shadow.
+
+const (
+	stSC = storagesc.ADDRESS
+	stT  = transaction.TxnTypeSmartContract
+	stGB = 1024 * 1024 * 1024
+	stMB = 1024 * 1024
+	stKB = 1024
+)
+
+// ---- shadow --------------------------------------------------------------------------------------------------------------
+
+type stProv struct {
+	Kind       string // "blobber" | "validator"
+	W, Del     *world.Wallet
+	URL        string
+	Reg        bool   // registration was applied
+	Dead       string // "" | "killed" | "shutdown" (as far as the generator knows)
+	Restricted bool
+	Stakers    []*world.Wallet
+	// generator's copy of what it registered / last set
+	Capacity   int64
+	ReadPrice  uint64
+	WritePrice uint64
+}
+
+func (p *stProv) ptype() int {
+	if p.Kind == "validator" {
+		return 4
+	}
+	return 3
+}
+
+// write-marker chain state of one (allocation, blobber) as the generator constructed it
+type stWM struct {
+	Root, Prev string
+	Ts         int64
+	Size       int64 // size field of the last accepted marker
+	Used       int64 // sum of accepted size changes
+	ChainHash  string
+	ChainSize  int64
+	V2         bool
+	LastRaw    []byte // raw input of the last accepted commit (replays)
+	Count      int
+}
+
+type stAlloc struct {
+	ID      string
+	Owner   *world.Wallet
+	Free    bool
+	Closed  string            // "" | "finalize" | "cancel" | "gone"
+	WM      map[string]*stWM  // blobber id -> chain state
+	RC      map[string]int64  // blobber|client -> last accepted read counter
+	RMRaw   map[string][]byte // blobber|client -> raw input of last accepted read marker
+	Readers map[string]*world.Wallet
+}
+
+type stAssigner struct {
+	W        *world.Wallet // key pair; the assigner name is the wallet id
+	Reg      bool
+	Indiv    uint64 // limits in tokens as last *successfully* registered
+	Total    uint64
+	Redeemed uint64
+	Used     map[int64]bool
+	Next     int64
+	LastRaw  []byte // raw input of last accepted free_allocation_request
+	LastBy   *world.Wallet
+}
+
+type stChal struct {
+	ID, Blobber, Alloc string
+	Validators         []string
+	Round              int64
+	Created            int64
+	Done               bool
+}
+
+type storageShadow struct {
+	mons       []Monitor
+	Blobbers   []*stProv
+	Validators []*stProv
+	Allocs     []*stAlloc
+	Assigners  []*stAssigner
+	ReadPools  map[string]*world.Wallet // clients that (probably) own a read pool
+	Chals      []*stChal
+	seq        int
+	Jumps      int
+	RewardRnd  int64
+	Pending    map[string]string // settings staged through update_settings
+	SinceJump  int               // storage transactions built since the last big time jump
+	Clients    []*world.Wallet   // extra funded clients of the storage workload
+}
+
+func newStorageShadow() *storageShadow {
+	return &storageShadow{ReadPools: map[string]*world.Wallet{}, Pending: map[string]string{}}
+}
+
+// ---- state views (decoded through the contract types' own JSON encoding) ----------------------------------------------------
+
+type stTerms struct {
+	ReadPrice  uint64 `json:"read_price"`
+	WritePrice uint64 `json:"write_price"`
+}
+
+type stStats struct {
+	UsedSize          int64 `json:"used_size"`
+	NumWrites         int64 `json:"num_of_writes"`
+	TotalChallenges   int64 `json:"total_challenges"`
+	OpenChallenges    int64 `json:"num_open_challenges"`
+	SuccessChallenges int64 `json:"num_success_challenges"`
+	FailedChallenges  int64 `json:"num_failed_challenges"`
+}
+
+type stWMView struct {
+	Version   string `json:"version"`
+	Root      string `json:"allocation_root"`
+	Prev      string `json:"prev_allocation_root"`
+	Size      int64  `json:"size"`
+	ChainSize int64  `json:"chain_size"`
+	ChainHash string `json:"chain_hash"`
+	Timestamp int64  `json:"timestamp"`
+}
+
+type stBAView struct {
+	BlobberID       string    `json:"blobber_id"`
+	Size            int64     `json:"size"`
+	AllocationRoot  string    `json:"allocation_root"`
+	LastWriteMarker *stWMView `json:"write_marker"`
+	Stats           *stStats  `json:"stats"`
+	Terms           stTerms   `json:"terms"`
+	CPIntegral      uint64    `json:"challenge_pool_integral_value"`
+	LatestFinalized int64     `json:"latest_finalized_chall_created_att"`
+}
+
+type stAllocView struct {
+	ID                   string      `json:"id"`
+	DataShards           int         `json:"data_shards"`
+	ParityShards         int         `json:"parity_shards"`
+	Size                 int64       `json:"size"`
+	Expiration           int64       `json:"expiration_date"`
+	Owner                string      `json:"owner_id"`
+	OwnerPublicKey       string      `json:"owner_public_key"`
+	Stats                *stStats    `json:"stats"`
+	BlobberAllocs        []*stBAView `json:"blobber_details"`
+	ThirdPartyExtendable bool        `json:"third_party_extendable"`
+	FileOptions          uint16      `json:"file_options"`
+	WritePool            uint64      `json:"write_pool"`
+	StartTime            int64       `json:"start_time"`
+	Finalized            bool        `json:"finalized"`
+	Canceled             bool        `json:"canceled"`
+}
+
+func (a *stAllocView) ba(blobber string) *stBAView {
+	for _, b := range a.BlobberAllocs {
+		if b.BlobberID == blobber {
+			return b
+		}
+	}
+	return nil
+}
+
+type stSPSettings struct {
+	DelegateWallet string  `json:"delegate_wallet"`
+	NumDelegates   int     `json:"num_delegates"`
+	ServiceCharge  float64 `json:"service_charge"`
+}
+
+type stNodeView struct {
+	ID              string       `json:"id"`
+	LastHealthCheck int64        `json:"last_health_check"`
+	IsShutDown      bool         `json:"is_shut_down"`
+	IsKilled        bool         `json:"is_killed"`
+	ProviderType    int          `json:"provider_type"`
+	URL             string       `json:"url"`
+	Terms           stTerms      `json:"terms"`
+	Capacity        int64        `json:"capacity"`
+	Allocated       int64        `json:"allocated"`
+	SavedData       int64        `json:"saved_data"`
+	NotAvailable    bool         `json:"not_available"`
+	SPS             stSPSettings `json:"stake_pool_settings"`
+	IsRestricted    *bool        `json:"is_restricted"`
+}
+
+type stDPView struct {
+	Balance    uint64 `json:"balance"`
+	Reward     uint64 `json:"reward"`
+	DelegateID string `json:"delegate_id"`
+}
+
+type stSPView struct {
+	Pools       map[string]*stDPView `json:"pools"`
+	Rewards     uint64               `json:"rewards"`
+	Settings    stSPSettings         `json:"settings"`
+	TotalOffers uint64               `json:"total_offers"`
+	IsDead      bool                 `json:"is_dead"`
+}
+
+func (sp *stSPView) stake() uint64 {
+	var t uint64
+	for _, p := range sp.Pools {
+		t += p.Balance
+	}
+	return t
+}
+
+type stRange struct {
+	Min uint64 `json:"min"`
+	Max uint64 `json:"max"`
+}
+
+type stConfView struct {
+	TimeUnit      int64  `json:"time_unit"`
+	MinAllocSize  int64  `json:"min_alloc_size"`
+	MaxCCR        int64  `json:"max_challenge_completion_rounds"`
+	MinBlobberCap int64  `json:"min_blobber_capacity"`
+	MaxReadPrice  uint64 `json:"max_read_price"`
+	MaxWritePrice uint64 `json:"max_write_price"`
+	MinWritePrice uint64 `json:"min_write_price"`
+	ReadPool      *struct {
+		MinLock uint64 `json:"min_lock"`
+	} `json:"readpool"`
+	WritePool *struct {
+		MinLock uint64 `json:"min_lock"`
+	} `json:"write_pool"`
+	MaxTotalFree uint64 `json:"max_total_free_allocation"`
+	MaxIndivFree uint64 `json:"max_individual_free_allocation"`
+	Free         struct {
+		DataShards   int     `json:"data_shards"`
+		ParityShards int     `json:"parity_shards"`
+		Size         int64   `json:"size"`
+		Read         stRange `json:"read_price_range"`
+		Write        stRange `json:"write_price_range"`
+	} `json:"free_allocation_settings"`
+	ValidatorsPerChallenge int     `json:"validators_per_challenge"`
+	MinStake               uint64  `json:"min_stake"`
+	MaxStake               uint64  `json:"max_stake"`
+	MaxDelegates           int     `json:"max_delegates"`
+	MaxCharge              float64 `json:"max_charge"`
+	BlockReward            *struct {
+		TriggerPeriod int64 `json:"trigger_period"`
+	} `json:"block_reward"`
+}
+
+// stJSON decodes the node stored under a contract key of the current state into out.
+func (h *Hist) stJSON(key string, out interface{}) bool {
+	n := h.NodeByKey(h.Cur, key)
+	if n == nil {
+		return false
+	}
+	b, err := json.Marshal(n.Val)
+	if err != nil {
+		return false
+	}
+	return json.Unmarshal(b, out) == nil
+}
+
+func (h *Hist) stGetAlloc(id string) *stAllocView {
+	v := &stAllocView{}
+	if !h.stJSON(stSC+id, v) || v.ID == "" {
+		return nil
+	}
+	return v
+}
+
+func (h *Hist) stNode(id string) *stNodeView {
+	v := &stNodeView{}
+	if !h.stJSON("provider:"+id, v) || v.ID == "" {
+		return nil
+	}
+	return v
+}
+
+func (h *Hist) stSP(kind, id string) *stSPView {
+	v := &stSPView{}
+	if !h.stJSON(kind+":stakepool:"+id, v) {
+		return nil
+	}
+	return v
+}
+
+// stConf returns the contract configuration of the current state (defaults of sc.yaml if it cannot be decoded).
+func (h *Hist) stConf() *stConfView {
+	v := &stConfView{}
+	if h.stJSON(stSC+encryption.Hash("storagesc_config"), v) && v.TimeUnit > 0 {
+		return v
+	}
+	d := &stConfView{TimeUnit: int64(720 * 3600 * 1e9), MinAllocSize: 1048576, MaxCCR: 1200, MinBlobberCap: 10737418240, MaxReadPrice: 7e10,
+		MaxWritePrice: 7e10, MinWritePrice: 1e7, MaxTotalFree: 1e14, MaxIndivFree: 1e12, ValidatorsPerChallenge: 3, MinStake: 1e8, MaxStake: 2e14,
+		MaxDelegates: 200, MaxCharge: 0.5}
+	d.Free.DataShards, d.Free.ParityShards, d.Free.Size = 4, 2, 10000000
+	d.Free.Write.Max = 1e10
+	return d
+}
+
+func (c *stConfView) timeUnitSec() int64 { return c.TimeUnit / 1e9 }
+
+func (c *stConfView) trigger() int64 {
+	if c.BlockReward != nil && c.BlockReward.TriggerPeriod > 0 {
+		return c.BlockReward.TriggerPeriod
+	}
+	return 30
+}
+
+func (c *stConfView) writeMinLock() uint64 {
+	if c.WritePool != nil {
+		return c.WritePool.MinLock
+	}
+	return 1e9
+}
+
+// ---- small helpers -------------------------------------------------------------------------------------------------------
+
+func (h *Hist) stHostile(r *mon.Rand, scale float64) bool {
+	p, _ := h.Vars["hostile"].(float64)
+	return r.Chance(p * scale)
+}
+
+// stExecRound is the round of the block the next submitted transaction will execute in.
+func (h *Hist) stExecRound() int64 {
+	if h.BC != nil {
+		return h.Round
+	}
+	return h.Round + 1
+}
+
+func (h *Hist) stWallet(label string) *world.Wallet {
+	w := h.W.AddWallet(label)
+	h.Names[w.ID] = w.Name
+	return w
+}
+
+func stCall(h *Hist, r *mon.Rand, fn string, from *world.Wallet, in interface{}, val uint64) *Call {
+	return &Call{Name: "storage." + fn, Meta: map[string]interface{}{},
+		Spec: world.TxnSpec{From: from, To: stSC, Value: Coin(val), Fee: Coin(h.fee(r) % 1000), Type: stT, Func: fn, Input: in}}
+}
+
+func stRaw(c *Call) []byte {
+	if c.Spec.RawInput != nil {
+		return c.Spec.RawInput
+	}
+	b, _ := json.Marshal(c.Spec.Input)
+	return b
+}
+
+// freeze turns Input into RawInput so that the exact bytes can be replayed later.
+func stFreeze(c *Call) []byte {
+	b := stRaw(c)
+	c.Spec.RawInput = b
+	return b
+}
+
+func stHash(s string) string { return encryption.Hash(s) }
+
+func (s *storageShadow) next() int { s.seq++; return s.seq }
+
+// a client that owns/reads allocations and stakes
+func (h *Hist) stClient(r *mon.Rand) *world.Wallet {
+	n := len(h.W.Clients)
+	if n > 1 && r.Chance(0.85) {
+		return h.W.Clients[1+r.Intn(n-1)]
+	}
+	return h.W.Clients[0]
+}
+
+func (h *Hist) stStranger(r *mon.Rand) *world.Wallet {
+	switch r.Intn(4) {
+	case 0:
+		return h.S.Extra[r.Intn(len(h.S.Extra))] // unfunded
+	case 1:
+		return h.W.Miners[r.Intn(len(h.W.Miners))]
+	default:
+		return h.anyClient(r)
+	}
+}
+
+// stMinerNode tells whether a miner/sharder node is stored under the provider key of id. storagesc reads "provider:"+id
+// into types that are not statecache.Copyable while minersc caches a MinerNode under the same key: naming a miner where
+// a blobber/validator is expected once killed the process ("get trie node not copyable"); the workload keeps probing it.
+func (h *Hist) stMinerNode(id string) bool {
+	n := h.NodeByKey(h.Cur, "provider:"+id)
+	return n != nil && strings.Contains(n.Type, "minersc")
+}
+
+func (h *Hist) stAnyMinerID(r *mon.Rand) *world.Wallet {
+	var c []*world.Wallet
+	for _, m := range append(append([]*world.Wallet{}, h.W.Miners...), h.W.Sharders...) {
+		if h.stMinerNode(m.ID) {
+			c = append(c, m)
+		}
+	}
+	if len(c) == 0 {
+		return nil
+	}
+	return c[r.Intn(len(c))]
+}
+
+func (s *storageShadow) live(list []*stProv) []*stProv {
+	var out []*stProv
+	for _, p := range list {
+		if p.Reg && p.Dead == "" {
+			out = append(out, p)
+		}
+	}
+	return out
+}
+
+func (s *storageShadow) registered(list []*stProv) []*stProv {
+	var out []*stProv
+	for _, p := range list {
+		if p.Reg {
+			out = append(out, p)
+		}
+	}
+	return out
+}
+
+func (s *storageShadow) dead(list []*stProv) []*stProv {
+	var out []*stProv
+	for _, p := range list {
+		if p.Reg && p.Dead != "" {
+			out = append(out, p)
+		}
+	}
+	return out
+}
+
+func (s *storageShadow) blobberByID(id string) *stProv {
+	for _, p := range s.Blobbers {
+		if p.W.ID == id {
+			return p
+		}
+	}
+	return nil
+}
+
+func (s *storageShadow) validatorByID(id string) *stProv {
+	for _, p := range s.Validators {
+		if p.W.ID == id {
+			return p
+		}
+	}
+	return nil
+}
+
+func (s *storageShadow) open() []*stAlloc {
+	var out []*stAlloc
+	for _, a := range s.Allocs {
+		if a.Closed == "" {
+			out = append(out, a)
+		}
+	}
+	return out
+}
+
+func (s *storageShadow) closed() []*stAlloc {
+	var out []*stAlloc
+	for _, a := range s.Allocs {
+		if a.Closed != "" {
+			out = append(out, a)
+		}
+	}
+	return out
+}
+
+// pickAlloc returns an open allocation together with its current state view, preferring allocations that have not
+// expired yet; allocations that vanished from the state (closed by a replayed transaction, ...) are marked.
+func (h *Hist) stPickAlloc(r *mon.Rand) (*stAlloc, *stAllocView) {
+	expired, running, views := h.stExpiredSplit()
+	pool := running
+	if len(expired) > 0 && (len(running) == 0 || r.Chance(0.06)) {
+		if len(running) == 0 && r.Chance(0.75) {
+			return nil, nil // callers fall back to creating a fresh allocation
+		}
+		pool = expired
+	}
+	if len(pool) == 0 {
+		return nil, nil
+	}
+	a := pool[r.Intn(len(pool))]
+	return a, views[a.ID]
+}
+
+func stUnknownID(r *mon.Rand) string {
+	ids := []string{"", "nope", stHash("no-such-entity"), stSC, "00", stHash("x") + "ff"}
+	return ids[r.Intn(len(ids))]
+}
+
+// count an inner (prerequisite) transaction in the same histogram the engine writes
+func (h *Hist) stInner(c *Call) *TxnObs {
+	o := h.Submit(c, h.S.St.mons)
+	if r := h.Runs[h.Focus]; r != nil {
+		r.Count("op:"+c.Name+"|"+o.Outcome, 1)
+	}
+	return o
+}
+
+// ---- set-up ---------------------------------------------------------------------------------------------------------------
+
+func (h *Hist) stSend(from *world.Wallet, to string, amount uint64) *TxnObs {
+	return h.Submit(&Call{Name: "send", Spec: world.TxnSpec{From: from, To: to, Value: Coin(amount), Type: transaction.TxnTypeSend}}, h.S.St.mons)
+}
+
+func stBlobberInput(p *stProv, numDelegates int, charge float64) map[string]interface{} {
+	in := map[string]interface{}{
+		"id": p.W.ID, "url": p.URL, "capacity": p.Capacity,
+		"terms":               map[string]interface{}{"read_price": p.ReadPrice, "write_price": p.WritePrice},
+		"stake_pool_settings": map[string]interface{}{"delegate_wallet": p.Del.ID, "num_delegates": numDelegates, "service_charge": charge},
+	}
+	if p.Restricted {
+		in["is_restricted"] = true
+	}
+	return in
+}
+
+func stValidatorInput(p *stProv, numDelegates int, charge float64) map[string]interface{} {
+	return map[string]interface{}{
+		"id": p.W.ID, "url": p.URL,
+		"stake_pool_settings": map[string]interface{}{"delegate_wallet": p.Del.ID, "num_delegates": numDelegates, "service_charge": charge},
+	}
+}
+
+func (h *Hist) stNewProv(r *mon.Rand, kind string) *stProv {
+	st := h.S.St
+	n := st.next()
+	p := &stProv{Kind: kind}
+	p.W = h.stWallet(fmt.Sprintf("%s%d", kind, n))
+	p.Del = h.stWallet(fmt.Sprintf("%s%d-del", kind, n))
+	p.URL = fmt.Sprintf("http://%s%d.verif:5051", kind, n)
+	if kind == "blobber" {
+		p.Capacity = []int64{20 * stGB, 64 * stGB, 200 * stGB, 1024 * stGB}[r.Intn(4)]
+		p.WritePrice = []uint64{1e7, 1e8, 1e9, 1e9, 5e9, 1e10}[r.Intn(6)]
+		p.ReadPrice = []uint64{0, 0, 1e8, 1e9, 1e10}[r.Intn(5)]
+	}
+	return p
+}
+
+func stStakeInput(p *stProv) map[string]interface{} {
+	return map[string]interface{}{"provider_type": p.ptype(), "provider_id": p.W.ID}
+}
+
+// storageSetup registers the initial providers of a history through the normal Submit path.
+func storageSetup(h *Hist, mons []Monitor) {
+	st := h.S.St
+	st.mons = mons
+	r := h.R.Fork("storage-setup")
+	rich := h.W.Clients[0]
+	nb := 5 + r.Intn(2)
+	nv := 3 + r.Intn(2)
+	reg := func(p *stProv) {
+		h.stSend(rich, p.W.ID, 2e11)
+		h.stSend(rich, p.Del.ID, 3e13)
+		var c *Call
+		if p.Kind == "blobber" {
+			c = stCall(h, r, "add_blobber", p.W, stBlobberInput(p, 10+r.Intn(20), 0.05*float64(r.Intn(6))), 0)
+		} else {
+			c = stCall(h, r, "add_validator", p.W, stValidatorInput(p, 10+r.Intn(20), 0.05*float64(r.Intn(6))), 0)
+		}
+		c.Spec.Fee = 0
+		c.Meta["provider_type"], c.Meta["provider_id"], c.Meta[p.Kind] = p.Kind, p.W.ID, p.W.ID
+		if o := h.Submit(c, mons); o.Outcome == "success" {
+			p.Reg = true
+		}
+		// stake: the delegate wallet and one ordinary client
+		stakers := []*world.Wallet{p.Del, h.W.Clients[1+r.Intn(len(h.W.Clients)-1)]}
+		for i, sw := range stakers {
+			amt := uint64(1e12) * uint64(1+r.Intn(8))
+			if p.Kind == "validator" {
+				amt = uint64(1e10) * uint64(1+r.Intn(50))
+			}
+			if i == 1 && r.Chance(0.3) {
+				continue
+			}
+			c := stCall(h, r, "stake_pool_lock", sw, stStakeInput(p), amt)
+			c.Spec.Fee = 0
+			c.Meta["provider_type"], c.Meta["provider_id"], c.Meta[p.Kind] = p.Kind, p.W.ID, p.W.ID
+			if o := h.Submit(c, mons); o.Outcome == "success" {
+				p.Stakers = append(p.Stakers, sw)
+			}
+		}
+	}
+	for i := 0; i < nb; i++ {
+		p := h.stNewProv(r, "blobber")
+		if i < 3 {
+			p.WritePrice = []uint64{1e8, 1e9, 1e9}[i] // at least three blobbers inside the free-allocation price range
+		}
+		st.Blobbers = append(st.Blobbers, p)
+		reg(p)
+	}
+	for i := 0; i < nv; i++ {
+		p := h.stNewProv(r, "validator")
+		st.Validators = append(st.Validators, p)
+		reg(p)
+	}
+	// free storage: by default a free allocation wants 4+2 blobbers with read price 0; most histories let the owner
+	// lower the requirement through the contract's own settings path (update_settings + commit_settings_changes)
+	if r.Chance(0.9) {
+		f := map[string]string{"free_allocation_settings.data_shards": "2", "free_allocation_settings.parity_shards": "1",
+			"free_allocation_settings.read_price_range.max": "1"}
+		c := stCall(h, r, "update_settings", h.W.Owner, map[string]interface{}{"fields": f}, 0)
+		c.Spec.Fee = 0
+		if o := h.Submit(c, mons); o.Outcome == "success" {
+			for k, v := range f {
+				st.Pending[k] = v
+			}
+		}
+		c = stCall(h, r, "commit_settings_changes", h.W.Miners[0], map[string]interface{}{}, 0)
+		c.Spec.Fee = 0
+		h.Submit(c, mons)
+	}
+	as := &stAssigner{W: h.stWallet(fmt.Sprintf("assigner%d", st.next())), Used: map[int64]bool{}, Next: 1}
+	st.Assigners = append(st.Assigners, as)
+	c := stCall(h, r, "add_free_storage_assigner", h.W.Owner, map[string]interface{}{"name": as.W.ID, "public_key": as.W.PubKey, "individual_limit": 20.0, "total_limit": 500.0}, 0)
+	c.Spec.Fee = 0
+	if o := h.Submit(c, mons); o.Outcome == "success" {
+		as.Reg, as.Indiv, as.Total = true, 20e10, 500e10
+	}
+	h.EndBlock()
+}
+
+// ---- catalogue --------------------------------------------------------------------------------------------------------------
+
+// urgent returns a call that is only possible in this very round (block rewards fire when round % trigger_period == 0).
+func (h *Hist) stUrgent(r *mon.Rand) *Call {
+	st := h.S.St
+	rd := h.stExecRound()
+	if rd%h.stConf().trigger() == 0 && st.RewardRnd != rd && r.Chance(0.8) {
+		st.RewardRnd = rd
+		return stBlockRewards(h, r)
+	}
+	// pace the big clock jumps: without them no allocation ever expires
+	if st.SinceJump >= 60 && st.Jumps < 4 && r.Chance(0.1) {
+		stTimeJump(h, r)
+	}
+	return nil
+}
+
+func storageOps() []OpDef {
+	var ops []OpDef
+	ops = append(ops, stAllocOps()...)
+	ops = append(ops, stMarkerOps()...)
+	ops = append(ops, stProviderOps()...)
+	ops = append(ops, stGovOps()...)
+	for i := range ops {
+		inner := ops[i].Build
+		ops[i].Build = func(h *Hist, r *mon.Rand) *Call {
+			if c := h.stUrgent(r); c != nil {
+				return c
+			}
+			c := inner(h, r)
+			if c != nil {
+				h.S.St.SinceJump++
+			}
+			return c
+		}
+	}
+	return ops
+}
